@@ -98,6 +98,8 @@ class RefBlockServer(Peer):
             ropts.append((27, rc.block(num, mflag, rszx)))
             if mflag:
                 return self.reply(src, msg, 68, ropts, b"")
+            if self.misbehave and self.misbehave[0] == "b1-continue-on-final":
+                return self.reply(src, msg, 95, ropts, b"")
         else:
             if payload or code in (2, 3):
                 if b2 is None or rc.unblock(b2)[0] == 0:
@@ -131,6 +133,10 @@ class RefBlockServer(Peer):
             return self.reply(src, msg, 128, ropts, b"")
         etag = self.etag
         mb = self.misbehave
+        if mb and mb[0] == "b2-etag-dropped" and num >= mb[1]:
+            # the representation changed and the server stopped sending an ETag
+            rep = bytes((b ^ 0x3C) for b in rep)
+            etag = None
         if mb and mb[0] == "b2-etag" and num >= mb[1]:
             # the representation really changed: other bytes under another ETag from this block on
             rep = bytes((b ^ 0x5A) for b in rep)
@@ -151,7 +157,7 @@ class RefBlockServer(Peer):
                 more = True
             elif mb[0] == "b2-more-past-end" and not more:
                 more = True
-        return self.reply(src, msg, rcode, ropts + [(4, etag), (23, rc.block(rnum, more, szx))], chunk)
+        return self.reply(src, msg, rcode, ropts + ([(4, etag)] if etag is not None else []) + [(23, rc.block(rnum, more, szx))], chunk)
 
     def state(self):
         return (self.name, len(self.received), sorted((k, len(v["body"])) for k, v in self.asm.items()), len(self.bodies))
